@@ -986,10 +986,11 @@ def explore(ctx: runner.Ctx):  # noqa: C901
     _phase(ctx, "start")
     _selfcheck(ctx)
     if os.environ.get("C12_ONLY", "") in ("", "cold"):
-        # first use *in the process*: every schedule in a fresh interpreter (see props/cold12.py); quick: about half of
-        # the lines that only a cold process executes, thorough: all of them
+        # first use *in the process*: every schedule in a process that has never built a retort (see props/cold12.py):
+        # scenarios (recipes whose results depend on the lazily initialised process-wide state) x thread orders x the
+        # lines only a cold process executes; the argument is the per-shard budget of the sampled part
         from props.cold12 import explore_cold  # noqa: PLC0415
-        explore_cold(ctx, ctx.budget(112, 4000))
+        explore_cold(ctx, ctx.budget(200, 16000))
         _phase(ctx, "cold")
     idx = 0
     only = os.environ.get("C12_ONLY", "")  # debugging aid: run one phase only (single | double | pct)
